@@ -1,5 +1,6 @@
-(* C20 — shift and diff are exact translations (rolling_mean: see DESIGN.md, decided by the
-   correspondence check; its model composes clip, slicing and mean). *)
+(* C20 — shift and diff are exact translations; rolling_mean returns exactly the points at which a window edge meets a
+   step point, each with the mean of f over its window. (The linear-interpolation claim is decided by the
+   correspondence check + oracle only.) *)
 From Coq Require Import List QArith Qcanon.
 Require Import SC.Base.Ord SC.Base.Val SC.Base.Series SC.Base.QcOrd SC.Model.Repr SC.Model.Ops SC.Model.Sampling SC.Model.Stats.
 Require Import SC.Spec.Den SC.Proofs.MapKeysFacts.
@@ -18,3 +19,34 @@ Theorem diff_is_f_minus_shifted_f :
     forall sd x, lim sd (diff f d) x = vsub (lim sd f x) (lim sd f (x - d)%Qc).
 Proof. exact diff_spec. Qed.
 Print Assumptions diff_is_f_minus_shifted_f.
+
+(* ---- rolling_mean *)
+Require Import SC.Model.Masking SC.Model.Slicing SC.Proofs.ClipFacts SC.Proofs.SlicingFacts SC.Proofs.RollingFacts.
+Open Scope Qc_scope.
+
+(* the rows are exactly the (x, y) with: x + l or x + r is a step point of f restricted to `where`, x lies in
+   [lower - l, upper - r], and y is the slicer mean of that restriction over (x + l, x + r] *)
+Theorem rolling_mean_returns_the_window_means_at_the_knots :
+  forall (f cl : stairsQ) (l r : Qc) (lo hi : option Qc) (rows : list (Qc * V)),
+    clip f lo hi = Ok cl -> data cl <> None -> rolling_mean f l r lo hi = Ok rows ->
+    forall k y, In (k, y) rows <->
+      ((In (k + l) (keys (get_values cl)) \/ In (k + r) (keys (get_values cl))) /\
+       knot_in_range l r lo hi k = true /\ slice_stat SMean cl IvRight (k + l, k + r) = Some y).
+Proof.
+  intros f cl l r lo hi rows Ec Hd E k y. rewrite (rolling_mean_rows f cl l r lo hi rows Ec Hd E k y).
+  rewrite knot_meets_a_step_point. tauto.
+Qed.
+Print Assumptions rolling_mean_returns_the_window_means_at_the_knots.
+
+(* ... and that slicer mean is the length-weighted mean (C08) of the function restricted to the window *)
+Theorem the_window_mean_is_the_mean_of_the_restriction :
+  forall (cl : stairsQ) (a b : Qc), wf cl -> ltb a b = true ->
+    exists sl, clip cl (Some a) (Some b) = Ok sl /\ wf sl /\
+      (forall sd x, lim sd sl x = if inside (strict_of sd) (Some a) (Some b) x then lim sd cl x else None) /\
+      slice_stat SMean cl IvRight (a, b) = Some (snd (integral_and_mean sl)).
+Proof.
+  intros cl a b W Hab. destruct (slice_is_restriction cl a b W Hab) as (sl & E & Wsl & _ & L).
+  exists sl. split; [exact E|]. split; [exact Wsl|]. split; [exact L|].
+  rewrite (slice_stat_unfold SMean cl IvRight a b sl E). reflexivity.
+Qed.
+Print Assumptions the_window_mean_is_the_mean_of_the_restriction.
